@@ -828,26 +828,39 @@ impl JxlImage {
                     }
                 }
 
-                JpegReconstructionStatus::Available
+                // The frame has to be usable as well, and completely loaded.
+                match self.jpeg_reconstruction_frame_status() {
+                    JpegReconstructionStatus::Available if self.num_loaded_frames() == 0 => {
+                        JpegReconstructionStatus::NeedMoreData
+                    }
+                    status => status,
+                }
             }
-            AuxBoxData::Decoding => {
-                if self.num_loaded_frames() >= 2 {
-                    return JpegReconstructionStatus::Invalid;
-                }
-                let Some(frame) = self.frame(0) else {
-                    return JpegReconstructionStatus::NeedMoreData;
-                };
-                let frame_header = frame.header();
-                if frame_header.encoding != jxl_frame::header::Encoding::VarDct {
-                    return JpegReconstructionStatus::Invalid;
-                }
-                if !frame_header.frame_type.is_normal_frame() {
-                    return JpegReconstructionStatus::Invalid;
-                }
-                JpegReconstructionStatus::NeedMoreData
-            }
+            AuxBoxData::Decoding => match self.jpeg_reconstruction_frame_status() {
+                JpegReconstructionStatus::Available => JpegReconstructionStatus::NeedMoreData,
+                status => status,
+            },
             AuxBoxData::NotFound => JpegReconstructionStatus::Unavailable,
         }
+    }
+
+    /// Checks whether the first frame can be used for JPEG bitstream reconstruction, as far as
+    /// it is known. Returns `Available` if nothing is wrong with the frame.
+    fn jpeg_reconstruction_frame_status(&self) -> JpegReconstructionStatus {
+        if self.num_loaded_frames() >= 2 {
+            return JpegReconstructionStatus::Invalid;
+        }
+        let Some(frame) = self.frame(0) else {
+            return JpegReconstructionStatus::NeedMoreData;
+        };
+        let frame_header = frame.header();
+        if frame_header.encoding != jxl_frame::header::Encoding::VarDct {
+            return JpegReconstructionStatus::Invalid;
+        }
+        if !frame_header.frame_type.is_normal_frame() {
+            return JpegReconstructionStatus::Invalid;
+        }
+        JpegReconstructionStatus::Available
     }
 
     /// Reconstructs JPEG bitstream and writes the image to writer.
